@@ -307,3 +307,9 @@ func VBuildTree(recs []VRec) []int {
 	}
 	return out
 }
+
+// VGetLowestPathInfo runs the real Group.GetLowestPathInfo on the given paths (taken as they are).
+func VGetLowestPathInfo(paths Paths64) (int, bool) {
+	g := &Group{inPaths: paths}
+	return g.GetLowestPathInfo()
+}
